@@ -587,26 +587,26 @@ func checkMain(args []string) {
 			samples = []json.RawMessage{json.RawMessage(`"no non-trivial run sampled"`)}
 		}
 		cov := map[string]any{
-			"evaluations":         agg.Runs,
-			"distinct_nontrivial": len(sigs),
-			"rule":                p.Rule,
-			"samples":             samples,
-			"nontrivial_runs":     agg.NonTrivial,
-			"operations_executed": agg.Ops,
+			"evaluations":                       agg.Runs,
+			"distinct_nontrivial":               len(sigs),
+			"rule":                              p.Rule,
+			"samples":                           samples,
+			"nontrivial_runs":                   agg.NonTrivial,
+			"operations_executed":               agg.Ops,
 			"operations_excluded_oracle_panics": agg.Excluded,
-			"logical_steps":       agg.Steps,
-			"runs_per_hour":       int(float64(agg.Runs) / wall * 3600),
-			"simulated_time":      fmt.Sprintf("%d logical steps (pool/sync events); the library has no clock, so no simulated seconds", agg.Steps),
-			"sim_stats":           agg.Stats,
-			"fault_kinds_fired":   faultCounts(p, agg),
-			"recycling_edges":     len(agg.Edges),
-			"recycling_edges_top": topEdges(agg.Edges, 12),
-			"probes":              agg.Probes,
-			"components_real":     p.Real,
-			"components_stubbed":  p.Stub,
-			"workers":             jobs,
-			"violation_reports":   violationSamples,
-			"known_findings_hit":  knownHits,
+			"logical_steps":                     agg.Steps,
+			"runs_per_hour":                     int(float64(agg.Runs) / wall * 3600),
+			"simulated_time":                    fmt.Sprintf("%d logical steps (pool/sync events); the library has no clock, so no simulated seconds", agg.Steps),
+			"sim_stats":                         agg.Stats,
+			"fault_kinds_fired":                 faultCounts(p, agg),
+			"recycling_edges":                   len(agg.Edges),
+			"recycling_edges_top":               topEdges(agg.Edges, 12),
+			"probes":                            agg.Probes,
+			"components_real":                   p.Real,
+			"components_stubbed":                p.Stub,
+			"workers":                           jobs,
+			"violation_reports":                 violationSamples,
+			"known_findings_hit":                knownHits,
 		}
 		ev := map[string]any{
 			"property_id": p.ID, "tier": *tier, "seed": int64(seed), "level": p.Level,
@@ -639,8 +639,8 @@ func faultCounts(p *Prop, agg *WorkerResult) map[string]uint64 {
 		"pool-clear (all pools emptied at an operation boundary)":           agg.Stats["Clears"],
 		"pool-foreign-object (object recycled into a different operation)":  agg.Stats["ForeignRecycles"],
 		"pool-cross-task-object (object recycled into another task)":        agg.Stats["CrossTaskRecycles"],
-		"context-switches":                                                  agg.Stats["Switches"],
-		"mutex-contended":                                                   agg.Stats["MutexBlocked"],
+		"context-switches": agg.Stats["Switches"],
+		"mutex-contended":  agg.Stats["MutexBlocked"],
 	}
 	for k, v := range agg.Faults {
 		m[k] = uint64(v)
